@@ -9,11 +9,12 @@ Local Open Scope R_scope.
 
 (* the numbers the property text relies on, proved from the constants regenerated from
    src/adaptive/trust.rs: teleport weight 0.4, threshold 1e-4, at most 50 rounds,
-   7 rounds when n > 100, 4 rounds when n > 500 *)
+   7 rounds when n > 100, 4 rounds when n > 500, convergence exit only from the 4th round on *)
 Theorem C11_constants :
   @alpha RF = 4 / 10 /\ @conv_thr RF = 1 / 10000 /\
   TRUST_MAX_ITERATIONS = 50%N /\ (TRUST_CUT1_N = 100 /\ TRUST_CUT1_ITER + 2 = 7)%N /\
-  (TRUST_CUT2_N = 500 /\ TRUST_CUT2_ITER + 2 = 4)%N.
+  (TRUST_CUT2_N = 500 /\ TRUST_CUT2_ITER + 2 = 4)%N /\
+  (TRUST_MIN_ITERATIONS = 4 /\ TRUST_MIN_ITER_OFFSET = 1)%N.
 Proof. rewrite alpha_R, conv_thr_R. repeat split; try reflexivity; lra. Qed.
 
 Section C11.
@@ -42,34 +43,20 @@ Theorem C11_closed_set_decay : forall pre ops d Sy,
   @mass RF (@global_trust RF ln1p st d) Sy <= (3 / 5) ^ N.to_nat (@rounds_run RF st) * pop_share st Sy.
 Proof. exact (hist_closed_set_decay ln1p ln1p_nonneg). Qed.
 
-(* THE PROPERTY AS WRITTEN: "... aggregate global trust no greater than one seventh of its share of
-   the population", for every history and every unvouched set. *)
-Definition C11_sybil_seventh_full : Prop := forall pre ops d Sy,
+(* every exit of the repaired loop is taken after at least 4 rounds *)
+Theorem C11_at_least_four_rounds : forall pre ops,
   let st := reach ln1p pre ops in
-  0 <= d -> st_pre st <> [] -> equal_stats ln1p st -> unvouched st Sy ->
-  @mass RF (@global_trust RF ln1p st d) Sy <= pop_share st Sy / 7.
+  @node_set RF st <> [] -> st_pre st <> [] -> (4 <= @rounds_run RF st)%N.
+Proof. exact (hist_rounds_ge_4 ln1p). Qed.
 
-(* It is FALSE for the repaired engine (C11_sybil_seventh_refuted, after the section).
-   Strongest version that holds: the bound holds whenever at least 4 rounds ran OR the set's share is
-   at least 1.05e-3.  What is excluded: a network of more than 950 nodes in which the loop leaves
-   through the convergence test after 2 or 3 rounds while the set is a handful of identities -- there
-   the set keeps up to 0.36 (2 rounds) / 0.216 (3 rounds) of its share, in absolute terms < 1.5e-4. *)
-Theorem C11_sybil_seventh_partial : forall pre ops d Sy,
+(* THE PROPERTY AS WRITTEN, at full strength: for every history, every network size, every anchor
+   count >= 1 and every unvouched set of any size and internal rating pattern, the set ends with
+   aggregate global trust no greater than one seventh of its share of the population. *)
+Theorem C11_sybil_seventh : forall pre ops d Sy,
   let st := reach ln1p pre ops in
   0 <= d -> st_pre st <> [] -> equal_stats ln1p st -> unvouched st Sy ->
-  (4 <= @rounds_run RF st)%N \/ 105 / 100000 <= pop_share st Sy ->
   @mass RF (@global_trust RF ln1p st d) Sy <= pop_share st Sy / 7.
 Proof. exact (hist_sybil_seventh ln1p ln1p_nonneg). Qed.
-
-(* no side condition in any network of at most 950 known nodes (this covers the property's
-   quantifier "Sybil set sizes 1..1000" whenever honest nodes + anchors + Sybils <= 950, and every
-   set of at least 0.105 % of the population in larger ones, by C11_sybil_seventh_partial) *)
-Theorem C11_sybil_seventh_950 : forall pre ops d Sy,
-  let st := reach ln1p pre ops in
-  0 <= d -> st_pre st <> [] -> equal_stats ln1p st -> unvouched st Sy ->
-  (length (@node_set RF st) <= 950)%nat ->
-  @mass RF (@global_trust RF ln1p st d) Sy <= pop_share st Sy / 7.
-Proof. exact (hist_sybil_seventh_950 ln1p ln1p_nonneg). Qed.
 
 (* below 0.1 % of the total in networks of up to 100 nodes, whichever exit the loop takes *)
 Theorem C11_small_net : forall pre ops d Sy,
@@ -89,12 +76,12 @@ Proof. exact (hist_anchor_floor ln1p ln1p_nonneg). Qed.
 
 End C11.
 
-(* The property as written is refuted over the exact reals: anchor 2, identity 1 rating itself, 4998
-   honest nodes known only through a 0.0 entry, nobody has statistics: the history below reaches it,
-   the loop leaves after two rounds and identity 1 keeps 0.36/5000 > (1/5000)/7. *)
-Theorem C11_sybil_seventh_refuted : forall ln1p : N -> R, (forall x, 0 <= ln1p x) ->
-  ~ C11_sybil_seventh_full ln1p.
-Proof. exact seventh_full_refuted. Qed.
+(* Why the minimum of 4 rounds is needed: for a faithful copy of the loop WITHOUT it ([iterate_old] in
+   Proofs/TrustStar.v: convergence exit allowed from the first round on) the one-seventh bound is
+   false -- anchor 2, identity 1 rating itself, 4998 honest nodes without statements: the old loop
+   leaves after two rounds and identity 1 keeps 0.36/5000 > (1/5000)/7. *)
+Theorem C11_old_exit_rule_refuted : ~ old_loop_seventh_full.
+Proof. exact old_loop_seventh_refuted. Qed.
 
 (* ---- the hypotheses are satisfiable: an anchor vouching for an honest node, and a self-rating
    identity nobody vouches for; nobody has statistics ---- *)
